@@ -305,7 +305,8 @@ class Elem:
 class MiniDataset:
     """The part of pydicom.dataset.Dataset that db.py / handle_find use, for the keywords of VR_OF:
     attribute access by keyword, `keyword in ds`, `len`, `delattr`, iteration over elements in tag order
-    (over a snapshot, as pydicom does).  Values are kept as given (str, None, list of str)."""
+    (over a snapshot, as pydicom does).  Values are kept as given (str, None, list of str), except that ''
+    becomes None as under qrscp's pydicom configuration."""
 
     def __init__(self):
         object.__setattr__(self, "_e", {})
@@ -319,6 +320,10 @@ class MiniDataset:
     def __setattr__(self, name, value):
         if name not in VR_OF:
             raise AttributeError("keyword outside the modelled set: " + name)
+        # qrscp.py sets pydicom.config.use_none_as_empty_text_VR_value = True at import, so inside the
+        # application a zero-length text/UI element is always seen as None, never as ''
+        if isinstance(value, str) and value == "":
+            value = None
         self._e[name] = Elem(name, value)
 
     def __delattr__(self, name):
